@@ -21,7 +21,7 @@ assert r.returncode == 0, r.stderr
 results = {}
 try:
     for c in checks:
-        out = subprocess.run(['./check', c, '--tier', 'quick'], cwd='/verif', capture_output=True, text=True).stdout
+        out = subprocess.run(['./check', c, '--tier', 'quick'], cwd='/verif', capture_output=True, text=True, env=dict(os.environ, VERIF_EVIDENCE_DIR='/verif/target/evidence-scratch')).stdout
         viol = [l for l in out.split('\n') if l.startswith('VIOLATION')]
         head = [l for l in out.split('\n') if l.startswith('[')]
         results[c] = {'caught': bool(viol), 'violation_lines': viol[:3], 'summary': head[:1]}
